@@ -183,7 +183,7 @@ def main(run: Run):
     run.functions["amaranth_soc.csr.event.EventMonitor.__init__"] = "bounded: register sizing/addresses taken from the memory map; attachment clauses evaluated natively"
     run_configs(run, __name__, cfgs)
     from . import ctor_l1
-    ctor_l1.add_to(run, ['eventmonitor_init'])
+    ctor_l1.add_to(run, ['eventmonitor_init', 'monitor_init'])
     from ..pyvc.driver import discharge_all
     from ..pyvc.engine import Unsupported
     try:
